@@ -14,6 +14,13 @@ ROOT = os.environ.get("RBXSIM_ROOT", os.path.dirname(os.path.dirname(os.path.abs
 
 # (name, property, expect_exit, file, old, new)
 EDITS = [
+ # ---- builder API (C10: "children in builder order") ----
+ ("c10-builder-add-children-replaces-instead-of-extending", "C10", 1, "rbx_dom_weak/src/instance.rs",
+  "        I: IntoIterator<Item = InstanceBuilder>,\n    {\n        self.children.extend(children);\n    }",
+  "        I: IntoIterator<Item = InstanceBuilder>,\n    {\n        self.children = children.into_iter().collect();\n    }"),
+ ("c10-builder-with-child-prepends", "C10", 1, "rbx_dom_weak/src/instance.rs",
+  "    pub fn with_child(mut self, child: InstanceBuilder) -> Self {\n        self.children.push(child);",
+  "    pub fn with_child(mut self, child: InstanceBuilder) -> Self {\n        self.children.insert(0, child);"),
  # ---- C13 ----
  ("c13-attr-reader-drops-interrupted-arm", "C13", 1, "rbx_types/src/attributes/reader.rs",
   "            Err(e) if e.kind() == io::ErrorKind::Interrupted => {}\n            Err(e) => return Err(e),",
